@@ -28,7 +28,10 @@ H2_PLANS = {
     "interim": {"status": 200, "headers": [], "body": b"d" * 20, "frames": [20], "interim": [(103, [(b"link", b"</a>")])]},
     "empty": {"status": 204, "headers": [], "body": b"", "frames": []},
 }
-BODIES = {"none": None, "bytes": b"b" * 30, "parts": [b"p" * 10, b"q" * 10, b"r" * 10]}
+BODIES = {"none": None, "bytes": b"b" * 30, "parts": [b"p" * 10, b"q" * 10, b"r" * 10],
+          # larger than the default HTTP/2 window (65,535): the upload stalls on flow control and the client
+          # has to READ (for WINDOW_UPDATE) in the middle of it
+          "big": b"B" * 70000, "bigparts": [b"P" * 40000, b"Q" * 40000]}
 
 
 def cases(tier):
@@ -42,7 +45,13 @@ def cases(tier):
                             for nreq in (1, 2):
                                 if tier == "quick" and (tls and seg == 1000 or nreq == 2 and bname == "parts"):
                                     continue
+                                if bname in ("big", "bigparts") and (proto != "h2" or pname != "data" or seg == 7 or tls or (tier == "quick" and nreq == 2)):
+                                    continue
                                 out.append({"tmo": tmo, "proto": proto, "plan": pname, "body": bname, "tls": tls, "seg": seg, "nreq": nreq})
+                # the caller lets go of the response EARLY (after the head / after the first chunk of the body)
+                if pname in ("data", "chunked", "cl"):
+                    for consume in ("head", "first"):
+                        out.append({"tmo": tmo, "proto": proto, "plan": pname, "body": "none", "tls": False, "seg": 7, "nreq": 2, "consume": consume})
     return out
 
 
@@ -70,8 +79,13 @@ def run_case(c, mode="sync"):
             method = "POST" if body is not None else "GET"
             resp = pool.handle_request(httpcore.Request(method, url, headers=[(b"Host", b"origin.test"), (b"X-Tok", b"t%d" % i)] + ([(b"Transfer-Encoding", b"chunked")] if isinstance(body, list) else [(b"Content-Length", b"%d" % len(body))] if body is not None else []), content=content, extensions=dict(ext)))
             try:
-                for _ in resp.iter_stream():
+                if c.get("consume") == "head":
                     pass
+                elif c.get("consume") == "first":
+                    next(iter(resp.iter_stream()), None)
+                else:
+                    for _ in resp.iter_stream():
+                        pass
             finally:
                 resp.close()
     except WouldHang:
